@@ -13,6 +13,9 @@ INJECT = {
     'statime/src/time/duration.rs': [('verif_bits', 'time_dur.rs')],
     'statime/src/time/instant.rs': [('verif_bits', 'time_inst.rs')],
     'statime/src/time/mod.rs': [('verif_time', 'time_mod.rs')],
+    'statime/src/bmc/foreign_master.rs': [('verif_fm', 'foreign_master.rs')],
+    'statime/src/bmc/dataset_comparison.rs': [('verif_cmp', 'dataset_comparison.rs')],
+    'statime/src/bmc/bmca.rs': [('verif_bmca', 'bmc_bmca.rs')],
 }
 
 
